@@ -93,7 +93,8 @@ class Explorer:
         if os.path.exists(trace):
             os.remove(trace)
         env = {"VERIF_THREADS": str(T), "VERIF_SCHED": ",".join(map(str, prefix)), "VERIF_TRACE": trace, "VERIF_FAULTS": ",".join(faults)}
-        code, out, err = vlib.run_cli(self.binary, argv, proj, extra_env=env, timeout=30)
+        # (a burst run makes one hand-off per file and schedule point: it gets a longer limit)
+        code, out, err = vlib.run_cli(self.binary, argv, proj, extra_env=env, timeout=120 if os.path.exists(os.path.join(proj, "m0000.js")) else 30)
         pts, status = parse_trace(trace)
         return code, out, err, pts, status
 
